@@ -5,8 +5,10 @@ Arith*.lean). Every theorem is about the executable model (Ymq/Model/{Dividers,I
 `= some …` means "no panic site of the checked profile is reached and the value is …".
 -/
 import Ymq.Lemmas.Dividers
+import Ymq.Lemmas.DividersUint
 import Ymq.Lemmas.ArithSqrt
 import Ymq.Lemmas.Inverter
+import Ymq.Lemmas.ArithGcd
 
 namespace Ymq.C08
 open Ymq.Limbs (W val Wf)
@@ -87,6 +89,31 @@ theorem mod_u128_spec (p : Nat) (d : Div) (h : new p = some d) (n : Nat) (hn : n
   obtain ⟨hp, ok⟩ := new_ok p d h
   rw [← hp]; exact modU128_ok d ok n hn
 
+/-! ### Dividers: multiword operands
+
+A `BUint<N>` is its little-endian digit list `ds` (`Wf ds`: every digit `< 2^64`), its value is
+`val ds`. -/
+
+/-- `mod_uint` is exact for every multiword operand (any number `N ≥ 1` of words). -/
+theorem mod_uint_spec (p : Nat) (d : Div) (h : new p = some d) (ds : List Nat) (hne : ds ≠ [])
+    (hw : Wf ds) : modUint d ds = some (val ds % p) := by
+  obtain ⟨hp, ok⟩ := new_ok p d h
+  rw [← hp]; exact modUint_ok d ok ds hne hw
+
+/-- `divmod_uint` (through `divmod_uint_inplace`) returns the exact multiword quotient — same number
+of words, every word `< 2^64`, no word-level overflow on the way, the final debug assertion
+holds — and the exact remainder. -/
+theorem divmod_uint_spec (p : Nat) (d : Div) (h : new p = some d) (ds : List Nat) (hw : Wf ds) :
+    ∃ qs r, divmodUint d ds = some (qs, r) ∧ qs.length = ds.length ∧ Wf qs ∧
+      val qs = val ds / p ∧ r = val ds % p := by
+  obtain ⟨hp, ok⟩ := new_ok p d h
+  rw [← hp]; exact divmodUint_ok d ok ds hw
+
+example : ((new 274177).bind fun d => modUint d (Limbs.ofNat 16 37714305606241449883)) = some 0 ∧
+    ((new 7).bind fun d => (divmodUint d [18446744073709551615, 18446744073709551615]).map
+      fun qr => (val qr.1, qr.2)) = some (48611766702991209066196372490252601636, 3) := by
+  decide +kernel
+
 /-- non-vacuity: the constructor accepts 3, 274177 and 2^30 − 1, and the routines compute. -/
 example : (∃ d, new 3 = some d) ∧ (∃ d, new 274177 = some d) ∧ (∃ d, new 1073741823 = some d) :=
   ⟨(new_no_panic 3 (Or.inr ⟨by decide, by decide, fun k hk => by
@@ -151,6 +178,12 @@ example : ((Dividers.new 7).bind fun d => (Inverter.new 7).bind fun tab => Inver
 
 `B` is the number of values of the Rust integer type (`2^64` for `u64`, `2^1024` for `Uint`). -/
 
+/-- `mulmod(a, b, p) = a·b mod p` whenever the product fits the type (and `p ≠ 0`); an overflowing
+product is a panic of the checked profile. -/
+theorem mulmod_spec (B a b p : Nat) (hp : 0 < p) (hab : a * b < B) :
+    mulmod B a b p = some (a * b % p) :=
+  mulmod_eq hp hab
+
 /-- `pow_mod(n, k, p) = n^k mod p` for every modulus `p > 1` whose square fits the type
 (`(p-1)² < B`: no product overflows, in either profile). For `k = 0` the routine returns 1, also
 when `p = 1` (where `n^0 mod 1 = 0`): that is the only deviation from `n^k % p`. -/
@@ -181,8 +214,44 @@ theorem sqrt_mod_none (B n p : Nat) (hp : p.Prime) (h : sqrtMod B n p = some non
     ¬ ∃ x, x * x % p = n % p :=
   sqrtMod_none B n p hp h
 
+/-- `sqrt_mod` reaches no panic site (no overflowing product, `assert!(exp2 < 24)` holds, the
+`for k in 1..(1 << 24)` loop finds a root before it runs out: `unreachable!` is unreachable) for
+every prime `p` whose square fits the type, provided `p ≡ 3 (mod 4)` (the multiword case) or
+`p < 2^24` (the factor-base range). For primes `p ≡ 1 (mod 2^24)` the code panics by design
+(`assert!(exp2 < 24)`); see the corpus. -/
+theorem sqrt_mod_no_panic (B n p : Nat) (hp : p.Prime) (hB : (p - 1) * (p - 1) < B)
+    (hdom : p % 4 = 3 ∨ p < 2 ^ 24) : ∃ res, sqrtMod B n p = some res :=
+  sqrtMod_no_panic B n p hp hB hdom
+
+/-- Together: on that domain `sqrt_mod` returns a root exactly when one exists. -/
+theorem sqrt_mod_exact (B n p : Nat) (hp : p.Prime) (hB : (p - 1) * (p - 1) < B)
+    (hdom : p % 4 = 3 ∨ p < 2 ^ 24) :
+    (∃ r, sqrtMod B n p = some (some r) ∧ r < p ∧ r * r % p = n % p) ∨
+    (sqrtMod B n p = some none ∧ ¬ ∃ x, x * x % p = n % p) := by
+  obtain ⟨res, h⟩ := sqrt_mod_no_panic B n p hp hB hdom
+  cases res with
+  | some r => exact Or.inl ⟨r, h, sqrt_mod_sound B n p r hp h⟩
+  | none => exact Or.inr ⟨h, sqrt_mod_none B n p hp h⟩
+
+/-- the documented assertion: a prime `p ≡ 1 (mod 2^24)` makes `sqrt_mod` panic on residues -/
+example : sqrtMod (2 ^ 64) 2 167772161 = none := by decide +kernel
+
 example : sqrtMod (2 ^ 64) 2 7 = some (some 4) ∧ sqrtMod (2 ^ 64) 3 7 = some none ∧
     sqrtMod (2 ^ 64) 5 41 = some (some 13) := by decide +kernel
+
+/-! ### inv_mod64 -/
+
+/-- `inv_mod64(n, p)` on the whole `u64 × u64` domain with `p > 0` (after the repair dd3553b the
+extended gcd runs on `i128`; `num_integer`'s loop is modelled step by step): no `i128` overflow,
+the `assert!(x >= 0)` holds, `Some(r)` with `r < p`, `n·r ≡ 1 (mod p)` exactly when
+`gcd(n, p) = 1`, `None` otherwise. -/
+theorem inv_mod64_spec (n p : Nat) (hn : n < 2 ^ 64) (hp : p < 2 ^ 64) (hp0 : 0 < p) :
+    (Nat.gcd n p = 1 → ∃ r, invMod64 n p = some (some r) ∧ r < p ∧ n * r % p = 1 % p) ∧
+    (Nat.gcd n p ≠ 1 → invMod64 n p = some none) :=
+  invMod64_spec n p hn hp hp0
+
+example : invMod64 3 18446744073709551557 = some (some 6148914691236517186) ∧
+    invMod64 18446744073709551615 7 = some (some 1) ∧ invMod64 6 9 = some none := by decide +kernel
 
 /-! ### integer roots, perfect powers -/
 
@@ -216,6 +285,12 @@ theorem perfect_power_spec (n : Nat) (res : Option (Nat × Nat)) (h : perfectPow
   cases res with
   | some rk => exact this
   | none => exact this
+
+/-- `perfect_power` terminates (recursion depth ≤ n) and its exponent product never overflows
+`u32`, for every argument of the widest type used (`n < 2^1024`). After the repair 78b984c this
+includes `n = 0` and `n = 1` (before it the recursion was unbounded there). -/
+theorem perfect_power_no_panic (n : Nat) (hn : n < 2 ^ 1024) : ∃ res, perfectPower n = some res :=
+  ppFuel_total (n + 1) n (by omega) hn
 
 example : perfectPower 6669042837601 = some (some (1607, 4)) ∧ perfectPower 2 = some none ∧
     perfectPower 1 = some (some (1, 2)) := by decide +kernel
